@@ -1,4 +1,5 @@
 import Amgcl.Model.StaticMatrix
+import Amgcl.Model.Kernels
 /-!
 # `amgcl::detail::inverse(n, A, t, p)` (detail/inverse.hpp:44-97) — core Lean only
 
@@ -36,8 +37,7 @@ variable {K : Type}
 /-- `A[i*n + j] = v` -/
 @[inline] def set2 (n : Nat) (A : Array K) (i j : Nat) (v : K) : Array K := A.setIfInBounds (i * n + j) v
 
-/-- `std::abs` of the harness type / of a real scalar: `a < 0 ? -a : a` -/
-def absK [Zero K] [Neg K] [LT K] [DecidableLT K] (x : K) : K := if x < 0 then -x else x
+-- `std::abs` of a real scalar (`absK`, `a < 0 ? -a : a`) is the one of `Model/Kernels.lean`
 
 /-- `std::iota(p, p + n, 0)` -/
 def iotaN (n : Nat) (p : Array Nat) : Array Nat :=
